@@ -358,10 +358,22 @@ impl wire::Decode for Message {
             Ok(MessageType::Ping) => {
                 let ponglen = u16::decode(reader)?;
                 let zeroes = ZeroBytes::decode(reader)?;
+                if zeroes.len() > Ping::MAX_PING_ZEROES as usize {
+                    return Err(wire::Error::InvalidSize {
+                        expected: Ping::MAX_PING_ZEROES as usize,
+                        actual: zeroes.len(),
+                    });
+                }
                 Ok(Self::Ping(Ping { ponglen, zeroes }))
             }
             Ok(MessageType::Pong) => {
                 let zeroes = ZeroBytes::decode(reader)?;
+                if zeroes.len() > Ping::MAX_PONG_ZEROES as usize {
+                    return Err(wire::Error::InvalidSize {
+                        expected: Ping::MAX_PONG_ZEROES as usize,
+                        actual: zeroes.len(),
+                    });
+                }
                 Ok(Self::Pong { zeroes })
             }
             Err(other) => Err(wire::Error::UnknownMessageType(other)),
